@@ -8,6 +8,7 @@ import (
 	"reflect"
 	"runtime"
 	"sort"
+	"strconv"
 	"strings"
 	"sync"
 	"sync/atomic"
@@ -50,7 +51,7 @@ type EvCall struct {
 
 // Callback is one callback.
 type Callback struct {
-	Via    string   `json:"via"` // "with" or "call"
+	Via    string   `json:"via"` // with, call, get or access (the request type whose handler runs the script)
 	RName  string   `json:"rname"`
 	Script []EvCall `json:"script"`
 }
@@ -162,8 +163,26 @@ func (h *harness) handlerOpts(cfg Config, typ string) []res.Option {
 		h.mu.Lock()
 		cb := h.curCb
 		h.mu.Unlock()
-		h.exec(r, r, cb.Script)
-	}), res.GetResource(func(r res.GetRequest) { r.NotFound() }))
+		h.exec(r, r, cb.Via, cb.Script)
+	}), res.GetResource(func(r res.GetRequest) {
+		h.mu.Lock()
+		cb := h.curCb
+		h.mu.Unlock()
+		if cb == nil || cb.Via != "get" {
+			r.NotFound()
+			return
+		}
+		h.exec(r, r, cb.Via, cb.Script)
+	}), res.Access(func(r res.AccessRequest) {
+		h.mu.Lock()
+		cb := h.curCb
+		h.mu.Unlock()
+		if cb == nil || cb.Via != "access" {
+			r.AccessGranted()
+			return
+		}
+		h.exec(r, r, cb.Via, cb.Script)
+	}))
 	if cfg.Apply["change"] {
 		o = append(o, res.ApplyChange(func(r res.Resource, ch map[string]interface{}) (map[string]interface{}, error) {
 			c := h.current()
@@ -328,7 +347,13 @@ func (c *EvCall) failErr() error {
 	return errors.New("apply failed")
 }
 
-func (h *harness) exec(r res.Resource, req res.CallRequest, sc []EvCall) {
+// requester is what the scripts need of a request: every request type has these.
+type requester interface {
+	Timeout(time.Duration)
+	Error(error)
+}
+
+func (h *harness) exec(r res.Resource, req requester, via string, sc []EvCall) {
 	for i := range sc {
 		c := &sc[i]
 		h.mu.Lock()
@@ -368,8 +393,11 @@ func (h *harness) exec(r res.Resource, req res.CallRequest, sc []EvCall) {
 					req.Timeout(time.Duration(c.Idx) * time.Millisecond)
 				}
 			case "reply":
-				if req != nil {
-					req.OK(c.Idx)
+				if cr, ok := req.(res.CallRequest); ok && via == "call" {
+					cr.OK(c.Idx)
+				} else if req != nil {
+					// get and access requests reply with an error that carries the number
+					req.Error(&res.Error{Code: "custom.reply", Message: strconv.Itoa(c.Idx)})
 				}
 			}
 		}()
@@ -522,21 +550,29 @@ func predict(cfg Config, cb Callback, reply string) (out []logEntry, failing, in
 		case "reaccess":
 			out = append(out, logEntry{"pub", "event." + cb.RName + ".reaccess", ""})
 		case "timeout":
-			if cb.Via == "call" {
+			if cb.Via != "with" && cb.Via != "query" {
 				out = append(out, logEntry{"pub", reply, fmt.Sprintf(`timeout:"%d"`, c.Idx)})
 			}
 		case "reply":
-			if cb.Via == "call" {
+			if cb.Via != "with" && cb.Via != "query" {
 				if replied {
 					out = append(out, logEntry{"panic", cb.RName, c.Op})
 				} else {
 					replied = true
-					out = append(out, logEntry{"pub", reply, fmt.Sprintf(`{"result":%d}`, c.Idx)})
+					if cb.Via == "call" {
+						out = append(out, logEntry{"pub", reply, fmt.Sprintf(`{"result":%d}`, c.Idx)})
+					} else {
+						out = append(out, logEntry{"pub", reply, fmt.Sprintf(`{"error":{"code":"custom.reply","message":"%d"}}`, c.Idx)})
+					}
 				}
 			}
 		}
 	}
-	if cb.Via == "call" && !replied {
+	if cb.Via == "query" {
+		out = append(out, logEntry{"pub", reply, `{"result":{"events":[]}}`})
+		return
+	}
+	if cb.Via != "with" && !replied {
 		out = append(out, logEntry{"pub", reply, `{"error":{"code":"system.internalError","message":"Internal error: missing response"}}`})
 	}
 	return
@@ -681,18 +717,59 @@ func runCase(c Case) (string, bool) {
 			done := make(chan struct{})
 			if err := s.With(cb.RName, func(rr res.Resource) {
 				defer close(done)
-				h.exec(rr, nil, cb.Script)
+				h.exec(rr, nil, "with", cb.Script)
 			}); err != nil {
 				return "With: " + err.Error(), false
 			}
 			<-done
+		case "query":
+			// a query event whose callback runs the script on the QueryRequest (a Resource) when a
+			// gateway's query request arrives
+			reply = r.NewReply()
+			done := make(chan struct{})
+			qsubj := ""
+			mark := h.conn.LogLen()
+			if err := s.With(cb.RName, func(rr res.Resource) {
+				defer close(done)
+				rr.QueryEvent(func(qr res.QueryRequest) {
+					if qr == nil {
+						return
+					}
+					h.exec(qr, nil, "with", cb.Script)
+				})
+			}); err != nil {
+				return "With: " + err.Error(), false
+			}
+			<-done
+			for _, e := range h.conn.LogFrom(mark) {
+				if e.Kind == "pub" && e.Subject == "event."+cb.RName+".query" {
+					var p struct{ Subject string }
+					_ = json.Unmarshal(e.Data, &p)
+					qsubj = p.Subject
+				}
+			}
+			if qsubj == "" {
+				return "no query event published", false
+			}
+			start = h.conn.LogLen()
+			if n := h.conn.Deliver(qsubj, reply, []byte(`{"query":"a=b"}`)); n != 1 {
+				return fmt.Sprintf("query request delivered %d times", n), false
+			}
+			deadline := time.Now().Add(20 * time.Second)
+			for len(h.conn.Published(reply)) == 0 && time.Now().Before(deadline) {
+				time.Sleep(20 * time.Microsecond)
+			}
 		default:
 			// route the call through a request; the handler is the "do" method: swap in the script via harness state
 			reply = r.NewReply()
 			h.mu.Lock()
 			h.curCb = &cb
 			h.mu.Unlock()
-			if n := h.conn.Deliver("call."+cb.RName+".do", reply, nil); n != 1 {
+			subj := "call." + cb.RName + ".do"
+			if cb.Via == "get" || cb.Via == "access" {
+				subj = cb.Via + "." + cb.RName
+			}
+			if n := h.conn.Deliver(subj, reply, nil); n != 1 {
 				return fmt.Sprintf("request delivered %d times", n), false
 			}
 			if err := r.WaitDone(reply, 1); err != nil {
@@ -741,7 +818,7 @@ func genCase() *rapid.Generator[Case] {
 		c.Cfg.Warm = rapid.IntRange(0, 3).Draw(t, "warm") == 0
 		n := rapid.IntRange(1, 4).Draw(t, "ncb")
 		for i := 0; i < n; i++ {
-			cb := Callback{Via: rapid.SampledFrom([]string{"with", "call"}).Draw(t, "via")}
+			cb := Callback{Via: rapid.SampledFrom([]string{"with", "call", "call", "get", "access", "query"}).Draw(t, "via")}
 			class := rapid.SampledFrom([]string{"m", "c", "u", "mm", "m", "c", "root"}).Draw(t, "class")
 			cb.RName = "svc." + class + "." + rapid.SampledFrom([]string{"1", "2", "abc"}).Draw(t, "id")
 			if class == "root" {
@@ -749,7 +826,14 @@ func genCase() *rapid.Generator[Case] {
 			}
 			k := rapid.IntRange(1, 8).Draw(t, "nev")
 			for j := 0; j < k; j++ {
-				cb.Script = append(cb.Script, genCall(t, class))
+				ec := genCall(t, class)
+				if cb.Via == "query" {
+					// change/add/remove on a query request feed its response; the others are ordinary events
+					for ec.Op != "custom" && ec.Op != "create" && ec.Op != "delete" && ec.Op != "reaccess" {
+						ec = genCall(t, class)
+					}
+				}
+				cb.Script = append(cb.Script, ec)
 			}
 			c.Cbs = append(c.Cbs, cb)
 		}
